@@ -46,7 +46,7 @@ func (c09) RequiredBuckets(tier string) []string {
 		"touches-0", "touches-n", "covers-all",
 		"circular:merged-ends", "circular:not-merged",
 		"input:nested-regions", "input:bare-segment", "input:zero-length",
-		"regions|1", "regions|6", "region-segments|4", "results-held-across-calls",
+		"regions|1", "regions|6", "region-segments|4", "results-held-across-calls", "coordinates:beyond-2^32",
 	}
 }
 
@@ -503,6 +503,56 @@ func (m c09) check(c *fw.Ctx, n int, arg gts.Region) {
 		c.Violate(cl, enc, exp, obs)
 	}
 
+	// chromosome-scale coordinates: every coordinate and n multiplied by a
+	// large factor (beyond 2^31, beyond 2^32) - the partition scales with it.
+	if c09ScaleTick++; c09ScaleTick%5 == 0 && n > 0 {
+		for _, f := range []int{3000000001, 1 << 33} {
+			var scale func(r gts.Region) gts.Region
+			scale = func(r gts.Region) gts.Region {
+				switch v := r.(type) {
+				case gts.Segment:
+					return gts.Segment{v[0] * f, v[1] * f}
+				case gts.Regions:
+					out := make(gts.Regions, len(v))
+					for i := range v {
+						out[i] = scale(v[i])
+					}
+					return out
+				}
+				return r
+			}
+			big := scale(arg)
+			var bmn []gts.Segment
+			var bil, bic []gts.Region
+			if p, val, site, stack := fw.Guard(func() {
+				bmn = gts.Minimize(big)
+				bil = gts.InvertLinear(big, n*f)
+				bic = gts.InvertCircular(big, n*f)
+			}); p {
+				c.ViolateX("scaled:"+panicClass(site, val), enc, "no panic with every coordinate multiplied by "+fmt.Sprint(f), fmt.Sprint(val), stack, nil)
+				break
+			}
+			want := make([]gts.Segment, len(mn))
+			for i, s := range mn {
+				want[i] = gts.Segment{s[0] * f, s[1] * f}
+			}
+			wil, wic := make([]gts.Region, len(il)), make([]gts.Region, len(ic))
+			for i := range il {
+				wil[i] = scale(il[i])
+			}
+			for i := range ic {
+				wic[i] = scale(ic[i])
+			}
+			got := c09EncSegs(bmn) + " | " + c09EncRegions(bil) + " | " + c09EncRegions(bic)
+			exp := c09EncSegs(want) + " | " + c09EncRegions(wil) + " | " + c09EncRegions(wic)
+			if got != exp {
+				c.Violate("scaled:results-do-not-scale", enc+fmt.Sprintf("  with every coordinate and n multiplied by %d", f), exp, got)
+				break
+			}
+			c.Bucket("coordinates:beyond-2^32")
+		}
+	}
+
 	// results stay what they were: the values returned for the previous case
 	// are looked at again now that three more calls have been made (a caller
 	// that collects the segments of several regions holds them this long).
@@ -526,6 +576,8 @@ type c09Keep struct {
 }
 
 var c09Held *c09Keep
+
+var c09ScaleTick int
 
 // ---- systematic sweep ----------------------------------------------------
 
